@@ -1068,5 +1068,44 @@ theorem winContig_of_sorted (e : Nat) : ∀ {accs : List Acc},
     have := take_between e a.stamp y.stamp x.stamp hay hyx (by simpa [win] using hxw.symm)
     simpa [win] using this
 
+/-! ### bounds on the group counts -/
+
+theorem fillsFrom_le (e : Nat) : ∀ (seen : List GKey) (accs : List Acc),
+    fillsFrom e seen accs ≤ (accs.filter (fun a => !a.isWrite)).length
+  | _, [] => Nat.le_refl _
+  | seen, a :: rest => by
+    have := fillsFrom_le e (a.gkey e :: seen) rest
+    simp only [fillsFrom, List.filter_cons]
+    cases a.isWrite
+    · simp only [Bool.not_false, Bool.and_true, if_true, List.length_cons]
+      split <;> omega
+    · simpa using this
+
+theorem distinct_le_fillsFrom (e : Nat) : ∀ (accs : List Acc) (seenP : List (List Nat)) (seen : List GKey),
+    (∀ k ∈ seen, k.1 ∈ seenP) → distinctFirstReads seenP accs ≤ fillsFrom e seen accs
+  | [], _, _, _ => Nat.le_refl _
+  | a :: rest, seenP, seen, h => by
+    have ih := distinct_le_fillsFrom e rest (a.point :: seenP) (a.gkey e :: seen) (by
+      intro k hk
+      rcases List.mem_cons.1 hk with rfl | hk
+      · exact List.mem_cons_self
+      · exact List.mem_cons_of_mem _ (h k hk))
+    simp only [distinctFirstReads, fillsFrom]
+    by_cases hp : a.point ∈ seenP
+    · simp [List.contains_iff_mem, hp]; omega
+    · have : a.gkey e ∉ seen := fun hk => hp (h _ hk)
+      simp [List.contains_iff_mem, hp, this]; omega
+
+theorem wbFrom_le (e : Nat) : ∀ (sd : List GKey) (accs : List Acc),
+    wbFrom e sd accs ≤ (accs.filter (fun a => a.wb)).length
+  | _, [] => Nat.le_refl _
+  | sd, a :: rest => by
+    simp only [wbFrom, List.filter_cons]
+    cases hwb : a.wb
+    · simpa using wbFrom_le e sd rest
+    · have := wbFrom_le e (a.gkey e :: sd) rest
+      simp only [if_true, List.length_cons]
+      split <;> omega
+
 end Traffic
 end Ft
